@@ -313,7 +313,7 @@ def patched_runs(chk, root):
         texts = {}
         rules = []
         for leaf in ('pa', 'pb', 'pc')[:chk.rng.randint(2, 3)]:
-            sc = S.Gen(chk.rng, n_decls=4, shared_sizers=False, small_discs=True, prefix='').schema()
+            sc = S.Gen(chk.rng, n_decls=4, shared_sizers=False, prefix='').schema()
             texts[leaf] = S.to_prophy(sc)
             open(os.path.join(base, leaf + '.prophy'), 'w').write(texts[leaf])
             if not rules:
@@ -397,7 +397,7 @@ def run_c20(tier):
     creqs, crows = [], []
     try:
         for si in range(chk.scale(6, 40)):
-            sc = S.Gen(chk.rng, n_decls=8, shared_sizers=False, small_discs=True).schema()
+            sc = S.Gen(chk.rng, n_decls=8, shared_sizers=False).schema()
             files = partition(chk.rng, sc, chk.rng.randint(2, 4))
             base = os.path.join(root, 'd%d' % si)
             paths, dirs = write_layout(chk.rng, base, files, 1)
